@@ -22,11 +22,12 @@ def check(run, tier):
         run.mc("MC_Twin", "MC_Twin_transfer")
     r = rng("C11")
     progs = targeted.worklist_programs("evo") + targeted.worklist_programs("fluent") + targeted.history_programs("evo") + targeted.history_programs("fluent")
+    progs += targeted.round2_programs("evo") + targeted.round2_programs("fluent")
     n = 150 if q else 3000
     for i in range(n):
         dev = "evo" if i % 2 == 0 else "fluent"
         p = programs.worklist_program(r, f"C11/r{i}", dev, r.randint(3, 12), unit=Fraction(1), maxunits=40, wlmax=r.choice([2, 3, 5]),
-                                      comps=False, direct=True, flags={"fullhist": True})
+                                      comps=False, direct=True, flags={"fullhist": True}, autosplit=(i % 4 != 1))
         progs.append(p)
     # specification -> code: behaviours enumerated by TLC on the bounded model, replayed on the implementation
     for cfg in ("MC_TwinGen_mixed2",) if q else ("MC_TwinGen_mixed2", "MC_TwinGen_mixed3"):
